@@ -117,20 +117,20 @@ Definition cert : table state * bool := Eval vm_compute in explore_from V0 400 c
 Definition tbl : table state := fst cert.
 
 Lemma cert_complete : snd cert = true.
-Proof. vm_cast_no_check (eq_refl true). Qed.
+Proof. vm_compute. reflexivity. Qed.
 Lemma cert_init : mem state_beq hash (init cfg_all) tbl = true.
-Proof. vm_cast_no_check (eq_refl true). Qed.
+Proof. vm_compute. reflexivity. Qed.
 Lemma cert_closed : closed_check state_beq hash (next V0) tbl = true.
-Proof. vm_cast_no_check (eq_refl true). Qed.
+Proof. vm_compute. reflexivity. Qed.
 Lemma cert_rank : rank_check (quiet V0) rank tbl = true.
-Proof. vm_cast_no_check (eq_refl true). Qed.
+Proof. vm_compute. reflexivity. Qed.
 Lemma cert_c12 : forallb c12_safe (members tbl) = true.
-Proof. vm_cast_no_check (eq_refl true). Qed.
+Proof. vm_compute. reflexivity. Qed.
 Lemma cert_c13 : forallb c13_safe (members tbl) = true.
-Proof. vm_cast_no_check (eq_refl true). Qed.
+Proof. vm_compute. reflexivity. Qed.
 Lemma cert_settled :
   forallb (fun s => match quiet V0 s with [] => settled s | _ => true end) (members tbl) = true.
-Proof. vm_cast_no_check (eq_refl true). Qed.
+Proof. vm_compute. reflexivity. Qed.
 (* size of the invariant, for the record *)
 Definition cert_size : N := Eval vm_compute in fold_left (fun n _ => N.succ n) (members tbl) 0%N.
 
